@@ -144,6 +144,12 @@ def _info_variants(n, k, rng, custom=True):
         if perm == sorted(perm) and k > 1:
             perm = perm[::-1]
         out.append(perm)
+        # structured custom sets: a contiguous window that touches neither end, and the first k positions in reversed order
+        if n - k >= 2 and k >= 2:
+            s0 = (n - k) // 2
+            out.append(list(range(s0, s0 + k)))
+        if k >= 2 and k <= 16:
+            out.append(list(range(k - 1, -1, -1)))
     return out
 
 
